@@ -16,6 +16,7 @@ RULE = (
     "clauses. Non-trivial = configuration whose probes include a value within one ulp of a threshold or integer crossing "
     "(all do by construction); distinct = distinct case JSON."
 )
+CLI_SHARE = 4  # one case in CLI_SHARE also goes through the command line (vk/cli.py)
 QUICK = {"examples": 6400, "shards": 16, "budget_s": 300}
 THOROUGH = {"examples": 16000, "shards": 16, "budget_s": 2400}
 ASSUMPTIONS = [
